@@ -37,6 +37,10 @@ def run_check(prop, tier, seed, repo_root, out=None):
             ctx.assume(a)
         try:
             mod.run(ctx)
+            if tier == "thorough" and \
+                    os.environ.get("GFAVERIF_SELFTEST", "1") != "0":
+                from . import selftest
+                selftest.run(ctx)
         except AnalysisError as e:
             ctx.error(str(e))
         except RecursionError:
